@@ -410,8 +410,22 @@ class TStr:
     def _find(self, item, last, a):
         """str.find / str.rfind of a literal: -1 iff the literal does not occur (the same fact as `in`), else an
         index with room for the literal; per slice and literal the first occurrence is not after the last."""
-        if a or not isinstance(item, str):
-            raise NotEncodable("find with start/end or a non-literal needle on symbolic text")
+        if not isinstance(item, str):
+            raise NotEncodable("find with a non-literal needle on symbolic text")
+        if a:
+            # s.find(x, i, j) == i + s[i:j].find(x) when found (for 0 <= i; a negative start is not modelled)
+            lo_ = a[0] if a[0] is not None else 0
+            hi_ = a[1] if len(a) > 1 else None
+            if isinstance(lo_, SInt):
+                if ENGINE.choose([lo_.e >= 0, lo_.e < 0]) == 1:
+                    raise NotEncodable("find with a negative start on symbolic text")
+            elif lo_ < 0:
+                raise NotEncodable("find with a negative start on symbolic text")
+            sub = self.getitem(slice(lo_, hi_))
+            r = sub._find(item, last, ()) if isinstance(sub, TStr) else (sub.rfind(item) if last else sub.find(item))
+            if isinstance(r, int) and r == -1:
+                return -1
+            return SInt(z3.simplify(lift_int(lo_) + lift_int(r)))
         if item == "":
             return 0 if not last else self.length()
         if not self.atoms or not bool(ENGINE.facts.has(self, item)):
